@@ -97,6 +97,17 @@ Theorem C01_skip_default_dict_kwargs_refuted :
 Proof. exact skip_default_dict_kwargs_witness. Qed.
 Print Assumptions C01_skip_default_dict_kwargs_refuted.
 
+(* skip_default prunes a spec of another class than the default's against that class's own defaults, but the re-parse
+   carries the default spec's init_args over first: B{a: 1} over the default S{a: 5, b: 2} comes back as B{a: 5} *)
+Theorem C01_skip_default_carry_over_refuted :
+  exists w', rt some_text yaml_skipdef
+               {| lf_key := kx; lf_ty := sub2_ty;
+                  lf_def := spec p_sub [(VStr k_init_args, VDict [(VStr kb, VInt 2); (VStr ka, VInt 5)])] |}
+               (spec p_base [(VStr k_init_args, VDict [(VStr ka, VInt 1)])]) = Some w' /\
+             veq w' (spec p_base [(VStr k_init_args, VDict [(VStr ka, VInt 1)])]) = false.
+Proof. exact skip_default_carry_over_witness. Qed.
+Print Assumptions C01_skip_default_carry_over_refuted.
+
 (* skip_default compares with ==: int 1 over the default 1.0 is dropped and re-parses to the float *)
 Theorem C01_skip_default_eq_refuted :
   exists lf w w', rt some_text yaml_skipdef lf w = Some w' /\ veq w' w = false.
